@@ -53,7 +53,14 @@ def r8_level_cap(run, tree):
     iof.check_find_max_level(run, tree)
 
 
-RULES = [r1, r3, r5, r6, r7_fresh_pieces, r8_level_cap]
+def r_memo(run, tree):
+    run.rule("C04.R9", "no memoised function on the loading path reads the environment (directory listings, files, clock): which output is the last one, and what a file holds, is looked up at every load",
+             "effect rule over the resolved call graph (functools.lru_cache / cache) with a positive fixture", "", floor=1)
+    from .memo_rules import check_memoised_functions
+    check_memoised_functions(run, tree, modules=("io/", "config/", "units/", "core/dataset"))
+
+
+RULES = [r1, r3, r5, r6, r7_fresh_pieces, r8_level_cap, r_memo]
 
 
 def t_load_space(run, tree):
